@@ -281,6 +281,11 @@ fn build_request(s: &Setup, r: &Value) -> Built {
           ("echo_p".into(), vec![("p", pn.clone())], pn)
         }
         "n" => ("echo_n".into(), vec![("n", nv.clone())], nv.clone()),
+        "scale" => {
+          let sc = pi64(r, "sc");
+          let rounded = crate::jsonval::round_half_even(pstr(r, "n"), sc).unwrap_or_else(|| "0".to_string());
+          ("scale_n".into(), vec![("n", nv.clone()), ("sc", Val::Num(sc.to_string()))], Val::Num(rounded))
+        }
         "b" => ("echo_b".into(), vec![("b", bv.clone())], bv.clone()),
         "snull" => ("echo_s".into(), vec![("s", Val::Null)], Val::Null),
         "mix" => (
@@ -1850,13 +1855,38 @@ fn gen_echo(rng: &mut Rng, m: String) -> Value {
     15 => "lnil",
     16 => "pnil",
     _ => {
-      let (dec, texts) = rng.pick(&TEMPORALS);
-      return json!({"kind": "echo", "m": m, "tck": tck, "dec": dec, "tv": rng.pick(texts)});
+      if rng.chance(1, 3) {
+        let (dec, texts) = rng.pick(&TEMPORALS);
+        return json!({"kind": "echo", "m": m, "tck": tck, "dec": dec, "tv": rng.pick(texts)});
+      }
+      let (dec, text) = crate::jsonval::gen_temporal(rng);
+      return json!({"kind": "echo", "m": m, "tck": tck, "dec": dec, "tv": text});
     }
   };
+  if dec == "n" && rng.chance(1, 3) {
+    // a number rounded by the decision to a scale between millionths and millions: results with a
+    // positive exponent (also of a zero) have to be rendered as numbers too
+    let digits = 1 + rng.index(18);
+    let mut n: String = (0..digits).map(|i| char::from(b'0' + if i == 0 { 1 + rng.index(9) } else { rng.index(10) } as u8)).collect();
+    if rng.chance(1, 6) {
+      n = "0".to_string();
+    }
+    if n.len() > 1 && rng.chance(1, 2) {
+      let cut = 1 + rng.index(n.len() - 1);
+      n = format!("{}.{}", &n[..cut], &n[cut..]);
+    }
+    if n != "0" && rng.chance(1, 3) {
+      n = format!("-{}", n);
+    }
+    let sc = rng.index(13) as i64 - 6;
+    return json!({"kind": "echo", "m": m, "tck": tck, "dec": "scale", "n": n, "sc": sc});
+  }
   let n_nums = rng.index(4);
-  let nums: Vec<String> = (0..n_nums).map(|_| crate::jsonval::gen_number(rng)).collect();
-  json!({"kind": "echo", "m": m, "tck": tck, "dec": dec, "s": crate::jsonval::gen_string(rng), "n": crate::jsonval::gen_number(rng), "b": rng.chance(1, 2), "nums": nums.join(",")})
+  // scientific notation is XML Schema's, not FEEL's: only in TCK inputs
+  let number = |rng: &mut Rng| if tck { crate::jsonval::gen_number_exp(rng) } else { crate::jsonval::gen_number(rng) };
+  let nums: Vec<String> = (0..n_nums).map(|_| number(rng)).collect();
+  let n = number(rng);
+  json!({"kind": "echo", "m": m, "tck": tck, "dec": dec, "s": crate::jsonval::gen_string(rng), "n": n, "b": rng.chance(1, 2), "nums": nums.join(",")})
 }
 
 const DEF_KINDS: [&str; 5] = ["add", "replace", "remove", "clear", "deploy"];
